@@ -393,10 +393,12 @@ def history_mapping(ctx, k):
     rng = ctx.rng
     base = ctx.scratch / f'm{k}'
     src = base / 'src'
-    mapping_inputs(rng, src)
+    sc = mapping_inputs(rng, src)
     fresh = sandbox(base, 'fresh')
     shared = sandbox(base, 'shared')
     kw = dict(n_processors=rng.choice([1, 2, 3]), chunk_size=rng.choice([2, 3, 4]), seed=rng.randrange(10 ** 6))
+    n_chunks = (len(sc.cell_ids) + kw['chunk_size'] - 1) // kw['chunk_size']
+    bad_r0 = kw['chunk_size'] * rng.randrange(n_chunks)
     plant = {'plant': {'dirs': [str(shared / 'tmp'), str(shared / 'out')], 'seed': rng.randrange(10 ** 6)}}
     log_r4 = str(shared / 'out' / 'log_r4.txt')
     fail_kinds = ['markers', 'stats']
@@ -407,7 +409,7 @@ def history_mapping(ctx, k):
         (mapping_job('fail-invalid-input', shared, src, 'f1', break_input=rng.choice(fail_kinds), **kw), 'failing-run', False),
         (mapping_job('after-failure', shared, src, 'r2', **kw), 'success-after-failure', True),
         (mapping_job('fail-worker-exit', shared, src, 'f2',
-                     fault={'how': rng.choice(['exit', 'raise']), 'code': 3, 'r0': 0}, **kw), 'failing-run-worker', False),
+                     fault={'how': rng.choice(['exit', 'raise']), 'code': 3, 'r0': bad_r0}, **kw), 'failing-run-worker', False),
         (mapping_job('after-worker-failure', shared, src, 'r3', **kw), 'success-after-failure', True),
         (mapping_job('stale-planted', shared, src, 'r1', pre=plant, **kw, log=False), 'stale-files-planted', True),
         (mapping_job('obsm', shared, src, 'o1', obsm_key='ctm_verif', private_query=True, **kw), 'obsm-key-set', True),
@@ -587,8 +589,8 @@ def run(ctx):
         'private copy of the query when obsm_key is set',
         'tempfile uniqueness under concurrency is assumed (the two-run acceptor checks the observed names are distinct)',
     ]
-    n_map = ctx.n(1, 14)
-    n_conc = ctx.n(2, 12)
+    n_map = ctx.n(2, 14)
+    n_conc = ctx.n(3, 14)
     n_stage = ctx.n(1, 5)
     state = None
     for k in range(n_map):
